@@ -8,7 +8,7 @@ import pathlib
 import time
 
 VERIF = pathlib.Path(__file__).resolve().parent.parent
-EVIDENCE = VERIF / "evidence"
+EVIDENCE = pathlib.Path(os.environ["YADSA_EVIDENCE_DIR"]) if os.environ.get("YADSA_EVIDENCE_DIR") else VERIF / "evidence"
 REPLAY = EVIDENCE / "replay"
 KNOWN = VERIF / "known_findings.json"
 
@@ -117,7 +117,7 @@ def finish(rep: Report, seed=0):
                 break
         (listed if hit else unlisted).append((o, hit))
 
-    EVIDENCE.mkdir(exist_ok=True)
+    EVIDENCE.mkdir(parents=True, exist_ok=True)
     replay_paths = []
     if unlisted:
         REPLAY.mkdir(exist_ok=True)
